@@ -4,11 +4,11 @@ package vlib
 
 import (
 	"bufio"
-	"hash/fnv"
-	"os/exec"
 	"encoding/json"
 	"fmt"
+	"hash/fnv"
 	"os"
+	"os/exec"
 	"path/filepath"
 	"sort"
 	"strconv"
@@ -155,8 +155,8 @@ func (r *Run) Sample(s any) {
 }
 
 func (r *Run) Set(k string, v any) { r.mu.Lock(); r.extra[k] = v; r.mu.Unlock() }
-func (r *Run) Rule(s string)        { r.rule = s }
-func (r *Run) Assume(s string)      { r.mu.Lock(); r.assumptions = append(r.assumptions, s); r.mu.Unlock() }
+func (r *Run) Rule(s string)       { r.rule = s }
+func (r *Run) Assume(s string)     { r.mu.Lock(); r.assumptions = append(r.assumptions, s); r.mu.Unlock() }
 
 // Capped records that a cap was hit: the run is then not exhaustive.
 func (r *Run) Capped(note string) {
@@ -214,17 +214,17 @@ func (r *Run) NumViolations() int {
 // ---- process sharding ----
 
 type partial struct {
-	Evaluations int64             `json:"evaluations"`
-	States      int64             `json:"states"`
-	Transitions int64             `json:"transitions"`
-	Distinct    []uint64          `json:"distinct"`
-	Outcomes    map[string]int64  `json:"outcomes"`
-	Samples     []any             `json:"samples"`
-	Extra       map[string]any    `json:"extra"`
-	Exhaustive  bool              `json:"exhaustive"`
-	CapNotes    []string          `json:"cap_notes"`
-	Violations  []*violation      `json:"violations"`
-	KnownHit    map[string]int    `json:"known_hit"`
+	Evaluations int64            `json:"evaluations"`
+	States      int64            `json:"states"`
+	Transitions int64            `json:"transitions"`
+	Distinct    []uint64         `json:"distinct"`
+	Outcomes    map[string]int64 `json:"outcomes"`
+	Samples     []any            `json:"samples"`
+	Extra       map[string]any   `json:"extra"`
+	Exhaustive  bool             `json:"exhaustive"`
+	CapNotes    []string         `json:"cap_notes"`
+	Violations  []*violation     `json:"violations"`
+	KnownHit    map[string]int   `json:"known_hit"`
 }
 
 // ShardIndex returns (i, n) when this process is a shard child, else (0, 1).
